@@ -4,12 +4,13 @@ from props.m2common import *  # noqa: F401,F403
 from props.m2common import g, sx, rng_for, fl, close, same, is_err, env_points, ref_value_at
 
 PID = "C09"
+KERNELS = ['K_segment_step', 'K_scale']   # translated from /repo on every run, tied to the model by coq/Gen/<name>_eq.v
 RUNNER = "impl_m2.py"
 N = {"quick": 1200, "thorough": 40000}
 LEVEL_RULE = ("envelopes as C08; per case an interval a <= m <= b with ends on control points, strictly inside the same or different "
               "(curved) segments, before the first and after the last point; queries integrate(a,b), integrate(a,m), integrate(m,b), "
               "integrate(a,a), average(a,b) plus a composite Simpson integration (32 panels per piece) of the implementation's own "
-              "value_at on a fresh copy. non-trivial = an interval end strictly inside a curved segment")
+              "value_at on a fresh copy; history stream (15 %): the same questions are asked first, then control points are edited in place (values, curve shapes, durations) and the answers must be those of the edited envelope. non-trivial = an interval end strictly inside a curved segment")
 ASSUMPTIONS = ASSUMPTIONS_M2
 TRUSTED = TRUSTED_M2
 
@@ -28,14 +29,33 @@ def gen(seed, index):
           ["simpson", a, b], ["value_at", a]]
     if rng.random() < 0.1:
         qs.append(["integrate", b, a])     # malformed: end before start
-    return ["envq", e] + qs
+    case = ["envq", e] + qs
+    if rng.random() < 0.15:
+        # history stream: the same questions were already asked before the control points were edited in place
+        e0 = [e[0]] + [list(p) for p in e[1:]]
+        for p in rng.sample(e0[1:], rng.randint(1, len(e0) - 1)):
+            r = rng.random()
+            if r < 0.6:
+                p[1] = g.hexf(G.value())
+            elif r < 0.85:
+                p[2] = g.hexf(rng.choice(G.shapes))
+            elif int(p[0]) > 0:
+                p[0] = int(p[0]) + G.unit
+        case.append(["prelude", e0])
+    return case
+
+
+def strip(case):
+    return case[:-1] if case[-1] and case[-1][0] == "prelude" else case
 
 
 def model_case(case):
+    case = strip(case)
     return case[:2] + [q for q in case[2:] if q[0] != "simpson"]
 
 
 def compare(case, mo, io):
+    case = strip(case)
     qs = [q for q in case[2:]]
     mi = iter(mo[1:])
     for k, (q, b) in enumerate(zip(qs, io[1:])):
@@ -48,6 +68,7 @@ def compare(case, mo, io):
 
 
 def oracle(case, io, mo):
+    case = strip(case)
     e = case[1]
     pts, durs, total = env_points(e)
     ans = {}
@@ -106,15 +127,20 @@ def stats(results):
         c["ends-in-curved=%d" % (int(g.in_curved_segment(e, a)) + int(g.in_curved_segment(e, b)))] += 1
         c["a<0" if a < 0 else "a>=0"] += 1
         c["b>end" if b > g.starts(e)[1] else "b<=end"] += 1
+        c["edited-in-place-after-first-answers" if case[-1][0] == "prelude" else "fresh"] += 1
     return dict(sorted(c.items()))
 
 
 def shrink(case):
     out = []
     e = case[1]
+    pre = case[-1] if case[-1] and case[-1][0] == "prelude" else None
+    case = strip(case)
     for i in range(1, len(e)):
         if len(e) > 2:
-            out.append(["envq", e[:i] + e[i + 1:]] + case[2:])
+            out.append(["envq", e[:i] + e[i + 1:]] + case[2:] + ([["prelude", [pre[1][0]] + pre[1][1:i] + pre[1][i + 1:]]] if pre else []))
+    if pre:
+        out.append(case)
     return out
 
 
